@@ -136,7 +136,12 @@ func (s *Storage) DeliverMessage(recipient string, msg *parser.Message, folder s
 		}
 		mailboxID, err = db.CreateMailboxPerUser(targetDB, targetUserID, targetFolder, specialUse)
 		if err != nil {
-			return fmt.Errorf("failed to create mailbox: %w", err)
+			// Race: another delivery created the folder in the meantime; look it up again
+			var lookupErr error
+			mailboxID, lookupErr = db.GetMailboxByNamePerUser(targetDB, targetUserID, targetFolder)
+			if lookupErr != nil {
+				return fmt.Errorf("failed to create mailbox: %w", err)
+			}
 		}
 	}
 
